@@ -499,7 +499,9 @@ static void parse_opt(assemblyline_t al, int argc, char **argv,
     case 'r':
       r->get_ret |= RUN;
       // if there is a optional numerical argument > 0, set the arg len
-      if (optarg != NULL && (temp = atoi(optarg) > 0))
+      // (the short form hands over "=LEN", the long form "LEN")
+      if (optarg != NULL &&
+          (temp = atoi(optarg[0] == '=' ? optarg + 1 : optarg)) > 0)
         r->arglen = temp;
       break;
     case 'p':
